@@ -51,11 +51,16 @@ func VerifC18_ScanRoot() {
 		n = 5
 	}
 	var root string
-	if rt.Choice("kind", 2) == 0 {
+	switch rt.Choice("kind", 3) {
+	case 0:
 		// a root that extends the storage path
 		root = storage + rt.StrN("suffix", 1, n)
-	} else {
+	case 1:
 		root = "/" + rt.StrN("root", 0, n)
+	case 2:
+		// a relative root (parent references, dots, empty segments)
+		root = rt.StrN("relative", 1, n+3)
+		rt.Assume(root[0] != '/')
 	}
 	noNUL(root)
 	for i := 0; i < len(root); i++ {
